@@ -197,6 +197,7 @@ fn w_common() -> Vec<(K, u32)> {
         (K::Opaque, 1),
         (K::ReReg, 1),
         (K::SlowPeer, 1),
+        (K::CapStuff, 1),
     ]
 }
 
@@ -288,6 +289,7 @@ impl Check for StepCheck {
         g.big_channel = big;
         g.frag = r.fork(11).chance(1, 5);
         g.pipe = r.fork(12).chance(1, 5);
+        g.spoof = r.fork(14).chance(1, 6);
         g.setup();
         g.run();
         Trace { check: self.id.into(), seed: 0, run_seed, config: cfg, params: HashMap::new(), actions: g.actions }
